@@ -841,4 +841,47 @@ end Examples
 #print axioms C18_inherited
 #print axioms C18_inherited_class
 
+/-! ## Reach into positions of undeclared type (serialising direction)
+
+`into_data` of a container whose element type is not declared (`list`, `Dict[Any, Any]`, an untyped value)
+serialises every element with `make_converter(type(element), handlers)`: a handler the container's
+converter was built with answers for the element's RUNTIME type (`Ext.elemHook`), at every depth.  (Before
+the repair D28 the sequence case never consulted the handlers.) -/
+
+/-- a handler that answers for the element's runtime type is what serialises it -/
+theorem C18_reach_element (E : Ext) (dyn : Val → Except Exc Val) (v : Val) (r : Except Exc Val)
+    (h : E.elemHook v = some r) : dynElem E dyn v = r := by
+  unfold dynElem; rw [h]
+
+/-- … in sequences and mappings of undeclared element type, typed … -/
+theorem C18_reach_containers (E : Ext) (dyn : Val → Except Exc Val) :
+    (∀ kind xs, intoC E dyn (.seq kind .any) (.list xs) =
+      (exMapM (dynElem E dyn) xs).map fun ys => if kind == "tuple" then .tuple ys else .list ys) ∧
+    (∀ kind kvs, intoC E dyn (.dict kind .any .any) (.dict kvs) =
+      match exMapM (fun (kv : Val × Val) =>
+          match dynElem E dyn kv.1 with
+          | .ok k' => (dynElem E dyn kv.2).map fun v' => (k', v')
+          | .error e => .error e) kvs with
+      | .error e => .error e
+      | .ok kvs' => (buildDict kvs').map .dict) :=
+  ⟨fun _ _ => rfl, fun _ _ => rfl⟩
+
+/-- … and untyped (`into_data(value)`), at every nesting level: the elements of a list / tuple / dict value go
+through the same element serialiser, which recurses with one unit less of fuel -/
+theorem C18_reach_untyped (E : Ext) (classes : List (String × Conv)) (enums : List (String × List Val)) (n : Nat) :
+    (∀ xs, intoDynF E classes enums (n + 1) (.list xs) =
+      (exMapM (dynElem E (intoDynF E classes enums n)) xs).map .list) ∧
+    (∀ xs, intoDynF E classes enums (n + 1) (.tuple xs) =
+      (exMapM (dynElem E (intoDynF E classes enums n)) xs).map .tuple) :=
+  ⟨fun _ => rfl, fun _ => rfl⟩
+
+-- non-vacuity: a hook that multiplies ints by ten reaches the element of a one-element list inside a list
+example : let E : Ext := { extRaising with elemHook := fun v => match v with | .int i => some (.ok (.int (i * 10))) | _ => none }
+    intoDynF E [] [] 3 (.list [.list [.int 3]]) = .ok (.list [.list [.int 30]]) := by
+  simp [intoDynF, dynElem, exMapM, Except.map]
+
+#print axioms C18_reach_element
+#print axioms C18_reach_containers
+#print axioms C18_reach_untyped
+
 end PaneModel
